@@ -18,14 +18,15 @@ class Exec:
 class Config:
     """One closed driver configuration: files on disk + argv + scheduler flags."""
 
-    def __init__(self, name, workdir, args, sources, sigint=False, hooks=False, postops=False, step_limit=20000, exec_timeout=60):
+    def __init__(self, name, workdir, args, sources, sigint=False, hooks=False, postops=False, step_limit=20000, exec_timeout=60, policy=None):
         self.name, self.workdir, self.args, self.sources = name, workdir, args, sources
         self.sigint, self.hooks, self.postops = sigint, hooks, postops
         self.step_limit, self.exec_timeout = step_limit, exec_timeout
+        self.policy = policy
         self._n = 0
         self._lock = threading.Lock()
 
-    def run(self, prefix):
+    def run(self, prefix, policy=None):
         with self._lock:
             self._n += 1
             n = self._n
@@ -36,6 +37,8 @@ class Config:
         env = dict(common.BASE_ENV)
         env.update({"S4V_TRACE": trace_path, "S4V_CHOICES": ",".join(str(c) for c in prefix),
                     "S4V_SOURCES": ",".join(self.sources), "S4V_STEP_LIMIT": str(self.step_limit), "TMPDIR": tmpdir})
+        if policy or self.policy:
+            env["S4V_POLICY"] = policy or self.policy
         if self.sigint:
             env["S4V_SIGINT"] = "1"
         if self.hooks:
